@@ -293,7 +293,7 @@ def run_rules(ctx, res):
     from ..report import Result as _R2
     r06 = _R2("C06", "quick", "other")
     c06.run_rules(ctx, r06)
-    vb = [v for v in r06.violations if v.rule == "R-C06-box"]
+    vb = [v for v in r06.violations if v.rule == "R-C06-box" or (v.rule == "floor" and "R-C06-box" in v.key) or (v.rule == "R-C06-pubfield" and v.key.startswith("dispatcher"))]
     res.inst(SITE, "field-use-sites (C06 box rule)", "", True, "%d violations" % len(vb))
     for v in vb:
         res.violate(SITE, "field-site|" + v.key, v.where, v.msg)
